@@ -3,6 +3,7 @@
   `Gen.bcastOk`/`Gen.bcastDim` are GENERATED from `_umath._get_broadcast_shape`.
 -/
 import SparseV.Model.Elemwise
+import SparseV.Lemmas.Elemwise2
 namespace SparseV.C01
 open SparseV
 
@@ -23,5 +24,26 @@ not be stretched: accepted iff the operand extent equals the target's or is 1. -
 theorem bcast_result_rule (l1 l2 : Int) :
     Gen.bcastOk l1 l2 true = true ↔ (l1 = l2 ∨ l1 = 1) := by
   simp [Gen.bcastOk]
+
+/-- **elemwise2_get.** The matched / unmatched mask algorithm computes the function element-wise:
+for ANY scalar function `f`, any fill values, any storage order, two operands with distinct stored
+indices — at every index `i` the result (with fill `f fa fb`) holds `f` of the operands' values at `i`.
+Entries whose value equals the result fill are dropped (so a `NoFill` result), which never changes a lookup. -/
+theorem elemwise2_get {α β γ : Type} [DecidableEq γ] (f : α → β → γ) (A : List (Idx × α)) (fa : α)
+    (B : List (Idx × β)) (fb : β) (hA : (COO.keysOf A).Nodup) (hB : (COO.keysOf B).Nodup) (i : Idx) :
+    COO.lookup (COO.elemwise2 f A fa B fb) (f fa fb) i = f (COO.lookup A fa i) (COO.lookup B fb i) :=
+  COO.elemwise2_lookup f A fa B fb hA hB i
+
+/-- the result never stores its own fill value -/
+theorem elemwise2_nofill {α β γ : Type} [DecidableEq γ] (f : α → β → γ) (A : List (Idx × α)) (fa : α)
+    (B : List (Idx × β)) (fb : β) : ∀ e ∈ COO.elemwise2 f A fa B fb, e.2 ≠ f fa fb := by
+  intro e he
+  unfold COO.elemwise2 at he
+  rw [List.mem_filter] at he
+  simpa using he.2
+
+/-- non-vacuity: overlapping and disjoint stored positions, nonzero fills, a cancelling sum -/
+example : COO.elemwise2 (fun a b : Int => a + b) [([0], 5), ([2], -1)] 1 [([2], 0), ([3], 4)] 0
+    = [([0], 5), ([3], 5)] := by decide
 
 end SparseV.C01
